@@ -42,6 +42,8 @@ DEC = [
     H("dec2::union_oob", tier="thorough", functions=DEC_FUNCS, bounds="union[null,long,boolean], branch index 3 (out of range) x all 2-byte tails x cut"),
     H("dec2::record_", functions=DEC_FUNCS, bounds="record{a:long,b:boolean} x all byte strings of length <= 3"),
     H("dec2::duration_", functions=DEC_FUNCS, bounds="all byte strings of length <= 13"),
+    H("dec2::ref_", functions=DEC_FUNCS + ["schema::Name::fully_qualified_name"], bounds="Ref -> enum{a,b,c} through a one-entry name table, and a dangling Ref; all byte strings of length <= 2"),
+    H("dec::fixed_size_guard", functions=DEC_FUNCS, bounds="allocation limit 4, fixed size 0..=7, all byte strings of length <= 8"),
 ]
 ENC_FUNCS = ["encode::encode_internal", "encode::encode_bytes", "util::zig_i64", "util::zig_i32", "util::encode_variable"]
 ENC = [
@@ -49,6 +51,7 @@ ENC = [
     H("enc::int_", functions=ENC_FUNCS, bounds="all i32 under schema int"),
     H("enc::logical_kinds", functions=ENC_FUNCS, bounds="9 int/long-backed logical kinds x values in [-8192, 8191]"),
     H("enc::spec_varint_roundtrip", functions=["(reference lemma: harness spec::enc_long / spec::dec_long only)"], bounds="all i64"),
+    H("enc::datum_writer_validate_flag", functions=["writer::datum::GenericDatumWriter::write_value_ref", "types::Value::validate_internal", "encode::encode_internal"], bounds="all i64 / booleans / all f64, validate on vs off"),
     H("enc::scalars", functions=ENC_FUNCS, bounds="null, both booleans, all f32 and f64 bit patterns"),
     H("enc::bytes_string_fixed", functions=ENC_FUNCS, bounds="all payloads of 0..=4 bytes (strings: all well-formed UTF-8)"),
     H("enc::enum_", functions=ENC_FUNCS, bounds="3 symbols, Enum(i,s) and String(s) forms"),
@@ -127,8 +130,10 @@ C18_FUNCS = ["headers::RabinFingerprintHeader::build_header", "reader::single_ob
 PROPS["C18"] = {
     "harnesses": [
         H("c18::header_layout", functions=C18_FUNCS[:1], bounds="all 8-byte fingerprints"),
-        H("c18::reader_rejects_foreign_header", functions=C18_FUNCS[1:3], bounds="schema long; all 12-byte inputs x all lengths 0..=12 (every truncation and every alteration of the 10 header bytes)"),
-        H("c18::writer_buffer_reuse", functions=C18_FUNCS[3:], bounds="schema long; 2 calls on one writer, all (i64, i64), first sink failing or not"),
+        H("c18::reader_rejects_foreign_header", functions=C18_FUNCS[1:3], bounds="schema long, reader configured with a 3-byte expected header; all 5-byte inputs x all lengths 0..=5 (every truncation and alteration of the header bytes)", timeout_q=900),
+        H("c18::read_header_exact", functions=C18_FUNCS[2:3], bounds="the real 10-byte header; all 11-byte inputs x all lengths 0..=11"),
+        H("c18::writer_buffer_reuse", functions=C18_FUNCS[3:], bounds="schema long; 2 calls on one writer, all (i64, i64), first sink failing or not", timeout_q=900),
+        H("c18::writer_after_encode_error", functions=C18_FUNCS[3:], bounds="schema record{a:long,b:[null,long]}; first value lacks b (validates, fails while encoding), second complete; all i8 payloads", timeout_q=900),
         H("c12::rabin_two_bytes", functions=["rabin::Rabin::update"], bounds="all 1- and 2-byte inputs vs bitwise CRC-64-AVRO"),
     ],
     "outside": "the canonical form text the fingerprint is computed from (text processing); typed (derive-based) writers/readers; sequences longer than 2 calls",
@@ -152,8 +157,8 @@ ENCDEC_OUTSIDE = ("maps and arrays on the decode side (CBMC 6.11 segfaults in it
                   "array/map *encoding* is covered under C13), decimals / big-decimals / uuids (num-bigint and uuid parsing loops), recursive schemas and Ref resolution, "
                   "strings/bytes longer than 3-4 bytes, nesting deeper than one level, schemas obtained from the parser (schemas are constructed)")
 PROPS["C01"] = {
-    "harnesses": _pick(ENC, _ALL_ENC, quick={"enc::long_", "enc::scalars", "enc::bytes_string_fixed", "enc::spec_varint_roundtrip"})
-                 + _pick(DEC, _ALL_DEC, quick={"dec::long_full", "dec::float_double", "dec::bytes_", "dec::string_2", "dec2::union_", "dec2::record_"}),
+    "harnesses": _pick(ENC, _ALL_ENC, quick={"enc::long_", "enc::scalars", "enc::bytes_string_fixed", "enc::spec_varint_roundtrip", "enc::datum_writer_validate_flag"})
+                 + _pick(DEC, _ALL_DEC, quick={"dec::long_full", "dec::float_double", "dec::bytes_", "dec::string_2", "dec2::union_", "dec2::record_", "dec2::ref_"}),
     "outside": ENCDEC_OUTSIDE + ". Round trip is decided compositionally: library encode == reference encode (all values), library decode == reference decode (all byte strings), reference decode o encode == id (lemma).",
     "assumptions": ["round-trip identity is derived from three solver-decided facts (see outside); it is not a single end-to-end query"],
 }
@@ -172,7 +177,7 @@ _C19 = {h.name: h for h in PROPS["C19"]["harnesses"]}
 _C14 = {h.name: h for h in PROPS["C14"]["harnesses"]}
 _C18 = {h.name: h for h in PROPS["C18"]["harnesses"]}
 PROPS["C05"] = {
-    "harnesses": _pick(DEC, _ALL_DEC, quick={"dec::null_bool", "dec::long_full", "dec::string_3", "dec::fixed_", "dec::logical_kinds"})
+    "harnesses": _pick(DEC, _ALL_DEC, quick={"dec::null_bool", "dec::long_full", "dec::string_3", "dec::fixed_", "dec::fixed_size_guard", "dec::logical_kinds"})
                  + [_C19["c19::limit_first_set_wins"], _C19["c19::limit_applied_by_decode_len"], _C14["c14::cuts_two_byte_count"], _C14["c14::cuts_a"], _C18["c18::reader_rejects_foreign_header"]],
     "outside": ENCDEC_OUTSIDE + ". Container header / embedded schema JSON, decompression, the serde deserializer, fixed sizes above 4 (the unguarded `vec![0; size]` for huge fixed sizes is therefore not exercised), block counts of zero-width items beyond one block.",
     "assumptions": ["no-panic = every Rust panic site (bounds, overflow in debug, unwrap/expect, unreachable) and every pointer check CBMC instruments is a proof obligation of the harness",
